@@ -18,7 +18,7 @@ func init() {
 			"R2 the global count is changed only by Add(delta) with delta a constant ±1 or derived from a size/deletion count read from the same table — never Store/Swap/CAS after construction; " +
 			"R3 the write paths take only segment locks, never nested; R4 EvictKeysAt is called with the inserted key as skip and clears a slot only behind k != skip / skip != 0; " +
 			"R5 every slot clear in UInt64Map is followed on all paths by size-- and backwardShiftDelete; R6 CompareAndSwap/CompareAndDelete write only behind the identity comparison under the write lock; " +
-			"R7 LimiterStore map accesses under its mutex.",
+			"R7 LimiterStore map accesses under its mutex; R8 the backward-shift move condition is the cyclic-interval predicate (decision table over three comparison atoms).",
 		NotDecided: []string{
 			"the map abstraction of the open-addressing table itself (ghost entries, duplicate keys, wrap-around of probe chains, growth) — an inductive invariant over operation sequences",
 			"the numeric bound capacity + concurrent writers",
@@ -235,8 +235,80 @@ func runC16(c *Ctx) {
 		c.MustCross("C16-R6", fn, "mutation", isPlainCallTo(pr.mut), OnTrue("present", ResultOf(1, getF)))
 	}
 
+	// R8 backward-shift move condition = cyclic interval predicate
+	c.Doc("C16-R8", "backwardShiftDelete: the entry at j is left in place (continue) exactly when its ideal slot k lies cyclically in (i, j]: (i<=j ? i<k && k<=j : i<k || k<=j); decided as a decision table of the branch structure over the three comparison atoms, nothing executed")
+	if fn := c.fn("C16-R8", pkg+".(*UInt64Map).backwardShiftDelete"); fn != nil {
+		primary := c.fobj("C16-R8", pkg+".(*UInt64Map).primaryIndex")
+		isK := CallTo(primary)
+		isJ := func(e *Expr) bool { e = strip(e); return e != nil && e.K == EBin && e.Op == token.AND }
+		isI := func(e *Expr) bool { e = strip(e); return e != nil && (e.K == EPhi || e.K == EParam) }
+		atoms := []CmpAtom{{"i<=j", isI, isJ, token.LEQ}, {"i<k", isI, isK, token.LSS}, {"k<=j", isK, isJ, token.LEQ}}
+		// start right after k is computed
+		var start *Point
+		for _, in := range instrsWhere(fn, isPlainCallTo(primary)) {
+			p := pointAfter(in)
+			start = &p
+		}
+		key := "C16-R8|backwardShiftDelete|move condition"
+		if start == nil {
+			c.unresolved("C16-R8", "backwardShiftDelete", "primaryIndex call not found")
+		} else {
+			loopHead := start.B
+			tab, why := DecisionTable(*start, atoms, func(in ssa.Instruction) string {
+				if st, ok := in.(*ssa.Store); ok {
+					if _, isIdx := st.Addr.(*ssa.IndexAddr); isIdx {
+						return "move"
+					}
+				}
+				// back at the loop body head without having moved = continue
+				if in.Block() != loopHead && len(in.Block().Instrs) > 0 && in == in.Block().Instrs[0] {
+					for _, s := range in.Block().Succs {
+						_ = s
+					}
+				}
+				if in.Block() != start.B && in == in.Block().Instrs[0] && c16IsLoopBody(in.Block(), primary) {
+					return "continue"
+				}
+				return ""
+			})
+			if why != "" {
+				c.undecided("C16-R8", key, fn.Pos(), "cannot decide the move condition: "+why)
+			} else {
+				bad := ""
+				for row := range tab {
+					A, B, C := row&1 != 0, row&2 != 0, row&4 != 0
+					wantContinue := (A && B && C) || (!A && (B || C))
+					got := tab[row] == "continue"
+					if got != wantContinue {
+						bad = fmt.Sprintf("for i<=j=%v, i<k=%v, k<=j=%v the code does %q, the cyclic-interval rule says continue=%v", A, B, C, tab[row], wantContinue)
+						break
+					}
+				}
+				if bad != "" {
+					c.violation("C16-R8", key, fn.Pos(), "backward shift moves/keeps the wrong entries: "+bad)
+				} else {
+					c.ok("C16-R8", key, fn.Pos(), "continue ⇔ k ∈ (i, j] cyclically, for all 8 atom assignments")
+				}
+			}
+		}
+	}
+
 	// R7 LimiterStore under mu
 	runLimiterStore(c)
+}
+
+// c16IsLoopBody: the block (re)computes the probe index — i.e. it is the head
+// of the scan loop body, reached again without a move.
+func c16IsLoopBody(b *ssa.BasicBlock, primary *types.Func) bool {
+	for _, in := range b.Instrs {
+		if bo, ok := in.(*ssa.BinOp); ok && bo.Op == token.AND {
+			return true
+		}
+		if isPlainCallTo(primary)(in) {
+			return true
+		}
+	}
+	return false
 }
 
 func funcObjOf(fn *ssa.Function) *types.Func {
